@@ -262,6 +262,25 @@ func (s *slicer) walk(v ssa.Value, visit func(ssa.Value), depth int) {
 				}
 			}
 		}
+	case *ssa.FreeVar:
+		// a captured variable: what is stored into it here and in the enclosing functions
+		for _, st := range storesTo(x) {
+			s.walk(st, visit, depth+1)
+		}
+		for _, st := range outerStores(x) {
+			s.walk(st, visit, depth+1)
+		}
+	case *ssa.MakeSlice:
+		// the values stored into the elements of a freshly made slice
+		if refs := x.Referrers(); refs != nil {
+			for _, ref := range *refs {
+				if ia, ok := ref.(*ssa.IndexAddr); ok {
+					for _, st := range storesTo(ia) {
+						s.walk(st, visit, depth+1)
+					}
+				}
+			}
+		}
 	case *ssa.Call:
 		if s.throughArgs {
 			for _, a := range x.Call.Args {
